@@ -15,7 +15,7 @@ import (
 func c16Cfg() *DeclCfg {
 	types := []TypeSpec{{K: KString}, {K: KString}, {K: KBool}, {K: KInt}, {K: KString, W: WSlice}, {K: KFloat64}, {K: KString, W: WMap, MapKey: KString}, {K: KDuration}, {K: KBool, W: WSlice}, {K: KInt64}}
 	return &DeclCfg{
-		MaxDepth: 3, MaxFan: 5, PCmds: 65, Types: types, OptsMin: 1, OptsMax: 4, SubGroupsMax: 2, NestMax: 2,
+		MaxDepth: 3, MaxFan: 5, PCmds: 65, Types: types, OptsMin: 1, OptsMax: 4, SubGroupsMax: 2, PInline: 20, NestMax: 2,
 		PNamespace: 40, PEnvNS: 40, PShortOnly: 12, PLongOnly: 35, PDefault: 45, PDefaultMask: 45, PProgAttr: 30, PEnv: 40, PChoices: 20, PHidden: 25, PHiddenGrp: 20, PHiddenCmd: 25,
 		PDesc: 80, PValueName: 40, PPos: 40, PosMax: 3, PRest: 40, PByTag: 50, PExec: 25, PSubOptional: 50, PAliases: 50, PRequired: 10,
 		ParserOpts: []flags.Options{flags.HelpFlag, flags.HelpFlag | flags.PassDoubleDash, 0}, NoHelpNames: true, NsDelims: []string{"", ".", "-"}, EnvDelims: []string{"", "_", "__"},
